@@ -440,3 +440,208 @@ theorem fit_transposeG (g : Grid) : Table.GridFit (transposeG g) := by
   omega
 
 end Odf.Transform
+
+/-! ### `optimize_width` on the run-length state: coherent, and no row wider than the declared columns -/
+namespace Odf.Transform
+open Odf.Rle Odf.Table Odf.Grid
+
+theorem trimRowsOpt_sub (rows : Runs RowD) : ∀ q ∈ trimRowsOpt rows, q.2 = 1 ∨ q ∈ rows := by
+  unfold trimRowsOpt
+  simp only
+  obtain ⟨suf, e, _⟩ := rstripList_split (fun (r : RowD × Nat) => r.1.all (fun c => empOf false c.1)) rows
+  generalize rstripList (fun (r : RowD × Nat) => r.1.all (fun c => empOf false c.1)) rows = kept at e
+  cases hd : rows.drop kept.length with
+  | nil => intro q hq; exact Or.inr hq
+  | cons p rest =>
+    obtain ⟨d, n⟩ := p
+    intro q hq
+    simp only [List.mem_append, List.mem_singleton] at hq
+    rcases hq with hq | rfl
+    · exact Or.inr (by rw [e]; simp [hq])
+    · exact Or.inl rfl
+
+theorem trimRowsOpt_cells (rows : Runs RowD) : ∀ q ∈ trimRowsOpt rows, ∃ n, (q.1, n) ∈ rows := by
+  unfold trimRowsOpt
+  simp only
+  obtain ⟨suf, e, _⟩ := rstripList_split (fun (r : RowD × Nat) => r.1.all (fun c => empOf false c.1)) rows
+  generalize rstripList (fun (r : RowD × Nat) => r.1.all (fun c => empOf false c.1)) rows = kept at e
+  cases hd : rows.drop kept.length with
+  | nil => intro q hq; exact ⟨q.2, hq⟩
+  | cons p rest =>
+    obtain ⟨d, n⟩ := p
+    intro q hq
+    simp only [List.mem_append, List.mem_singleton] at hq
+    rcases hq with hq | rfl
+    · exact ⟨q.2, by rw [e]; simp [hq]⟩
+    · exact ⟨n, List.mem_of_mem_drop (by rw [hd]; simp)⟩
+
+theorem trimRowsOpt_ne_nil (rows : Runs RowD) (h : trimRowsOpt rows ≠ []) : rows ≠ [] := by
+  intro hc
+  apply h
+  subst hc
+  rfl
+
+theorem minimizedWidth_pos (d : RowD) (hp : Pos d) : 1 ≤ minimizedWidth d := by
+  unfold minimizedWidth
+  cases hl : d.getLast? with
+  | none => simp
+  | some p =>
+    obtain ⟨c, n⟩ := p
+    simp only
+    have hmem : (c, n) ∈ d := List.mem_of_getLast? hl
+    have hn : 1 ≤ n := hp (c, n) hmem
+    have hle : n ≤ total d := by
+      obtain ⟨a, b, hab⟩ := List.append_of_mem hmem
+      rw [hab, total_append, total_cons]; omega
+    split <;> omega
+
+theorem total_dropLast_getLast (d : RowD) (c n : Nat) (hl : d.getLast? = some (c, n)) : total d = total d.dropLast + n := by
+  have : d = d.dropLast ++ [(c, n)] := by
+    have hne : d ≠ [] := by intro hc; subst hc; simp at hl
+    have := List.dropLast_concat_getLast hne
+    rw [List.getLast?_eq_some_getLast hne] at hl
+    simp only [Option.some.injEq] at hl
+    rw [hl] at this
+    exact this.symm
+  conv => lhs; rw [this]
+  rw [total_append]; simp
+
+/-- a forced row is exactly `w` wide when it was shortened, unchanged otherwise; never wider than `max w (its minimized width)` -/
+theorem total_forceWidth (w : Nat) (d : RowD) (hw : minimizedWidth d ≤ w) : total (forceWidth w d) ≤ w ∧ total (forceWidth w d) ≤ total d := by
+  unfold forceWidth
+  unfold minimizedWidth at hw
+  cases hl : d.getLast? with
+  | none =>
+    have : d = [] := List.getLast?_eq_none_iff.mp hl
+    subst this
+    simp
+  | some p =>
+    obtain ⟨c, n⟩ := p
+    rw [hl] at hw
+    simp only at hw ⊢
+    have ht := total_dropLast_getLast d c n hl
+    by_cases hcond : empOf true c = true ∧ n ≥ 2 ∧ total d > w
+    · rw [if_pos hcond]
+      obtain ⟨he, hn2, hgt⟩ := hcond
+      rw [if_pos he] at hw
+      rw [total_append]
+      simp only [total_cons, total_nil]
+      omega
+    · rw [if_neg hcond]
+      by_cases he : empOf true c = true
+      · rw [if_pos he] at hw
+        have : ¬ (n ≥ 2 ∧ total d > w) := fun h => hcond ⟨he, h⟩
+        omega
+      · rw [if_neg he] at hw
+        omega
+
+theorem pos_forceWidth (w : Nat) (d : RowD) (hp : Pos d) (hw : minimizedWidth d ≤ w) : Pos (forceWidth w d) := by
+  unfold forceWidth
+  unfold minimizedWidth at hw
+  cases hl : d.getLast? with
+  | none => exact hp
+  | some p =>
+    obtain ⟨c, n⟩ := p
+    rw [hl] at hw
+    simp only at hw ⊢
+    split
+    · rename_i hcond
+      obtain ⟨he, hn2, hgt⟩ := hcond
+      rw [if_pos he] at hw
+      have ht := total_dropLast_getLast d c n hl
+      intro q hq
+      simp only [List.mem_append, List.mem_singleton] at hq
+      rcases hq with hq | rfl
+      · exact hp q (List.dropLast_subset d hq)
+      · simp only; omega
+    · exact hp
+
+/-- **`optimize_width` leaves a coherent table in which no row is wider than the declared columns** (the width it
+    trims the columns to is at least the minimized width of every row, and every row it forces ends up at most that wide) -/
+theorem tblOptimize_inv_fit (t : Tbl) (h : Inv t) (hfit : Table.GridFit (absT t)) :
+    Inv (tblOptimize t) ∧ Table.GridFit (absT (tblOptimize t)) := by
+  have hposR : Pos t.rows.runs := h.rows.2
+  generalize hr1 : trimRowsOpt t.rows.runs = rows1
+  have hsubc : ∀ q ∈ rows1, ∃ n, (q.1, n) ∈ t.rows.runs := by rw [← hr1]; exact trimRowsOpt_cells _
+  have hpos1 : Pos rows1 := by
+    intro q hq
+    rcases trimRowsOpt_sub t.rows.runs q (by rw [hr1]; exact hq) with h1 | hm
+    · omega
+    · exact hposR q hm
+  have hcell1 : ∀ q ∈ rows1, Pos q.1 := by
+    intro q hq
+    obtain ⟨n, hn⟩ := hsubc q hq
+    exact h.cells (q.1, n) hn
+  generalize hwd : (rows1.map (fun r => minimizedWidth r.1)).foldl max 0 = w
+  have hwge : ∀ q ∈ rows1, minimizedWidth q.1 ≤ w := by
+    intro q hq
+    rw [← hwd]
+    exact foldl_max_pos (rows1.map (fun r => minimizedWidth r.1)) (minimizedWidth q.1) (List.mem_map.mpr ⟨q, hq, rfl⟩) 0
+  have hcolfit : ∀ q ∈ rows1, total q.1 ≤ total t.cols.runs := by
+    intro q hq
+    obtain ⟨n, hn⟩ := hsubc q hq
+    have hn1 : 1 ≤ n := hposR (q.1, n) hn
+    have hmem : expand q.1 ∈ (absT t).rows := by
+      unfold absT
+      simp only [List.mem_map]
+      refine ⟨q.1, ?_, rfl⟩
+      obtain ⟨a, b, hab⟩ := List.append_of_mem hn
+      rw [hab, expand_append, expand_cons]
+      simp only [List.mem_append, List.mem_replicate]
+      exact Or.inr (Or.inl ⟨by omega, trivial⟩)
+    have := hfit (expand q.1) hmem
+    simpa [absT, expand_length] using this
+  have hI : Inv (tblOptimize t) := by
+    unfold tblOptimize
+    simp only [hr1, hwd]
+    refine ⟨⟨rfl, ?_⟩, ⟨rfl, ?_⟩, ?_, ?_⟩
+    · simp only [fresh]
+      split
+      · unfold trimCols
+        exact pos_reverse _ (pos_trimColsRev _ _ (pos_reverse _ h.cols.2))
+      · exact h.cols.2
+    · intro q hq
+      simp only [fresh] at hq
+      obtain ⟨r, hr, rfl⟩ := List.mem_map.mp hq
+      exact hpos1 r hr
+    · intro q hq
+      simp only [fresh] at hq
+      obtain ⟨r, hr, rfl⟩ := List.mem_map.mp hq
+      exact pos_forceWidth w r.1 (hcell1 r hr) (hwge r hr)
+    · intro hne
+      simp only [fresh] at hne ⊢
+      have hne1 : rows1 ≠ [] := by intro hc; apply hne; rw [hc]; rfl
+      have hRne : t.rows.runs ≠ [] := trimRowsOpt_ne_nil _ (by rw [hr1]; exact hne1)
+      have hcne := h.declared hRne
+      split
+      · rename_i hgt
+        intro hc
+        have ht := total_trimCols t.cols.runs (total t.cols.runs - w) (by omega)
+        rw [hc] at ht
+        simp only [total_nil] at ht
+        obtain ⟨r0, hr0⟩ := List.exists_mem_of_ne_nil _ hne1
+        have := minimizedWidth_pos r0.1 (hcell1 r0 hr0)
+        have := hwge r0 hr0
+        omega
+      · exact hcne
+  refine ⟨hI, ?_⟩
+  -- no row wider than the columns
+  intro row hrow
+  unfold tblOptimize absT at hrow ⊢
+  simp only [hr1, hwd, fresh] at hrow ⊢
+  rw [expand_map_fst] at hrow
+  simp only [List.mem_map] at hrow
+  obtain ⟨d', ⟨d, hd, rfl⟩, rfl⟩ := hrow
+  obtain ⟨n, hn⟩ := mem_expand rows1 d hd
+  have hq : (d, n) ∈ rows1 := hn
+  obtain ⟨h1, h2⟩ := total_forceWidth w d (hwge (d, n) hq)
+  have h3 := hcolfit (d, n) hq
+  rw [expand_length]
+  split
+  · rename_i hgt
+    rw [total_trimCols _ _ (by omega)]
+    omega
+  · simp only at h3
+    omega
+
+end Odf.Transform
